@@ -21,6 +21,8 @@ SEMANTICS = {
     "[f(i) for i in range(n)]": "length n (n >= 0), element p is f(p)",
     "lst.remove(x)": "raises ValueError unless x occurs; with k the first position holding x: length - 1, elements before k kept, elements behind k shifted down by one",
     "lst.append(x)": "length + 1, element at the old length is x, all others kept",
+    "lst.insert(c, x) (constant c >= 0, or len(lst))": "length + 1, x at position min(c, length), elements from there on shifted up by one",
+    "list(range(n))": "length n (n >= 0), element p is p",
     "lst[c] (constant c >= 0)": "raises IndexError unless c < length; element c",
     "lst.index(x)": "raises ValueError unless x occurs; the first position holding x",
     "len(lst)": "the length",
@@ -163,6 +165,35 @@ class Exec:
                     raise Unsupported("super() with %d known bases" % len(bases))
                 slf = next(v for v in env.values() if isinstance(v, Obj))
                 return self.call(slf, f.attr, [self.expr(a, env) for a in e.args], cls=bases[0])
+            if isinstance(f, ast.Name) and f.id == "list" and len(e.args) == 1 and isinstance(e.args[0], ast.Call) and isinstance(e.args[0].func, ast.Name) \
+                    and e.args[0].func.id == "range" and len(e.args[0].args) == 1:
+                n = self.expr(e.args[0].args[0], env)
+                v = z3.Int("i!%d" % (self.fresh + 1))
+                self.fresh += 1
+                self.obligations.append(("list(range):length_not_negative", n >= 0))
+                return SymList(z3.Lambda([v], v), n)
+            if isinstance(f, ast.Attribute) and isinstance(f.value, ast.Name) and isinstance(env.get(f.value.id), Obj) and not e.keywords \
+                    and f.attr not in ("remove", "append", "index", "insert"):
+                # a method of the same object (a private helper): executed through the real class
+                return self.call(env[f.value.id], f.attr, [self.expr(a, env) for a in e.args])
+            if isinstance(f, ast.Attribute) and f.attr == "insert" and len(e.args) == 2 and not e.keywords \
+                    and isinstance(f.value, ast.Attribute) and isinstance(f.value.value, ast.Name) and isinstance(env.get(f.value.value.id), Obj):
+                o, fld = env[f.value.value.id], f.value.attr
+                lst = o.fields.get(fld)
+                if not isinstance(lst, SymList):
+                    raise Unsupported("list method on a non-list")
+                x = self.expr(e.args[1], env)
+                pos_e = e.args[0]
+                if isinstance(pos_e, ast.Call) and isinstance(pos_e.func, ast.Name) and pos_e.func.id == "len" and len(pos_e.args) == 1 \
+                        and ast.unparse(pos_e.args[0]) == ast.unparse(f.value):
+                    o.fields[fld] = SymList(z3.Store(lst.arr, lst.n, x), lst.n + 1)        # insert at the end = append
+                    return None
+                if isinstance(pos_e, ast.Constant) and isinstance(pos_e.value, int) and not isinstance(pos_e.value, bool) and pos_e.value >= 0:
+                    k = z3.If(lst.n < pos_e.value, lst.n, z3.IntVal(pos_e.value))                 # positions behind the end mean the end
+                    p = z3.Int("p")
+                    o.fields[fld] = SymList(z3.Lambda([p], z3.If(p < k, lst.at(p), z3.If(p == k, x, lst.at(p - 1)))), lst.n + 1)
+                    return None
+                raise Unsupported("insert at " + ast.unparse(pos_e))
             if isinstance(f, ast.Attribute) and f.attr in ("remove", "append", "index") and len(e.args) == 1 and not e.keywords:
                 # the receiver must be a field holding a list: the operation updates that field
                 if not (isinstance(f.value, ast.Attribute) and isinstance(f.value.value, ast.Name) and isinstance(env.get(f.value.value.id), Obj)):
